@@ -34,6 +34,11 @@ def make_scratch(variant, idx):
         if os.path.isdir(os.path.join(REPO, d)):
             shutil.copytree(os.path.join(REPO, d), os.path.join(base, d))
     applied = True
+    if variant.get('patch'):
+        import subprocess
+        r = subprocess.run(['patch', '-p1', '-s', '--no-backup-if-mismatch', '-i', variant['patch']], cwd=base,
+                           stdout=subprocess.PIPE, stderr=subprocess.STDOUT, text=True)
+        applied = r.returncode == 0
     for ed in variant['edits']:
         p = os.path.join(base, ed['file'])
         s = open(p).read()
